@@ -63,6 +63,7 @@ type c10Alt struct {
 	R    c10R     `json:"r"`
 	Wild bool     `json:"wild"`
 	P    c10P     `json:"p"`
+	Xp   bool     `json:"xp"`
 }
 type c10Step struct {
 	Op   string   `json:"op"`
@@ -80,6 +81,7 @@ type c10Step struct {
 		R    c10R     `json:"r"`
 		Wild bool     `json:"wild"`
 		P    c10P     `json:"p"`
+		Xp   bool     `json:"xp"`
 		Alts []c10Alt `json:"alts"`
 		Amb  bool     `json:"amb"`
 		Devs []string `json:"devs"`
@@ -412,7 +414,10 @@ type c10Found struct {
 	devs []string
 }
 
+// as-built failures under an identity-hash prefix: an oversized identity block is added (a), or a
+// branch node is linked by its oversized identity CID and cannot be fetched when reading (b)
 const c10IdentErr = "digest too large: identity digest"
+const c10FetchErr = "failed to fetch all nodes"
 
 // c10RunOne replays one behaviour on one configuration.
 // Returns the explained deviations met on the way and, if step != 0, the unexplained disagreement.
@@ -469,13 +474,27 @@ func c10RunOne(b *c10Beh, c c10Cfg) (found []c10Found, step int, what string) {
 			}
 		}
 		// 2. identity-hash prefix: re-rooting outside Sync adds an oversized identity block
-		if c.Ident && st.Xp {
+		if c.Ident {
 			doProbe()
-			if strings.Contains(real.ErrStr, c10IdentErr) || (sameR && strings.Contains(probe.Fail, c10IdentErr)) {
+			xp := st.Xp || (follow && st.Fo.Xp)
+			for _, a := range alts {
+				xp = xp || (a.Xp && (c10SameR(st.Op, real, a.R) || strings.Contains(real.ErrStr, c10IdentErr)))
+			}
+			if (xp && (strings.Contains(real.ErrStr, c10IdentErr) || strings.Contains(probe.Fail, c10IdentErr))) ||
+				strings.Contains(real.ErrStr, c10FetchErr) || strings.Contains(probe.Fail, c10FetchErr) {
 				return append(found, c10Found{i + 1, explain(), []string{"Dev_C10_IdentityOverflow"}}), 0, ""
 			}
 		}
-		// 3. the other open deviations: exact alternative of this call, checking stops
+		// 3. the other open deviations: exact alternative of this call, checking stops.  Fully modelled
+		// alternatives are tried before unmodelled ones, fewer deviations before more.
+		alts = append([]c10Alt{}, alts...)
+		sort.SliceStable(alts, func(x, y int) bool {
+			wx, wy := alts[x].Wild || alts[x].P.Wild, alts[y].Wild || alts[y].P.Wild
+			if wx != wy {
+				return !wx
+			}
+			return len(alts[x].Devs) < len(alts[y].Devs)
+		})
 		for _, a := range alts {
 			if !c10SameR(st.Op, real, a.R) {
 				continue
@@ -774,9 +793,9 @@ func c10Record(t *testing.T) {
 			}
 			vEmit(M{"ev": st.Op, "b": st.B, "o": st.O, "w": st.W, "k": st.K,
 				"r": M{"n": r.N, "err": r.Err, "eof": r.Eof, "data": r.Data, "ret": r.Ret, "errstr": r.ErrStr,
-					"identerr": strings.Contains(r.ErrStr, c10IdentErr)},
+					"identerr": strings.Contains(r.ErrStr, c10IdentErr), "fetcherr": strings.Contains(r.ErrStr, c10FetchErr)},
 				"p": M{"fail": p.Fail, "size": p.Size, "cur": p.Cur, "view": p.View, "wpos": wpos, "wok": wok,
-					"identfail": strings.Contains(p.Fail, c10IdentErr)}})
+					"identfail": strings.Contains(p.Fail, c10IdentErr), "fetchfail": strings.Contains(p.Fail, c10FetchErr)}})
 		}
 	}
 }
